@@ -123,7 +123,7 @@ Definition sql_kind_of (c : ctx) : sql_kind :=
   else if is_cls "Attribute" p && pstr_eqb (attr_of p) (s2p "format") then SqlFormat
   else if is_cls "Attribute" p && pstr_eqb (attr_of p) (s2p "replace") then SqlReplace
   else if is_cls "JoinedStr" p then
-    match filter is_Str (field_list "values" p) with
+    match (field_list "values" p) with
     | s0 :: _ => if node_eqb (c_node c) s0 then SqlJoinedFirst else SqlJoinedOther
     | [] => SqlJoinedOther
     end
@@ -455,7 +455,7 @@ Fixpoint is_assigned (id : pstr) (n : node) : res asg :=
                            | None => Raise IndexError
                            end
                          else scan ts' (S pos)
-                     | _ => scan ts' (S pos)
+                     | _ => Raise AttributeError          (* name.id on a non-Name target element *)
                      end
                  end) (field_list "elts" target) O
             else Ok AFalse
